@@ -193,6 +193,16 @@ func c06Sess(f []string) string {
 			}
 			code := map[byte]uint8{'a': ppp.ConfAck, 'n': ppp.ConfNak, 'j': ppp.ConfRej}[ev[0]]
 			s.ipcp.FSM().Input(code, lastReq.id, c06Bytes(ev[1:]))
+		case ev[0] == 'R':
+			// LCP renegotiated and authentication repeated: the AAA answer is evaluated again and
+			// startNCP runs a second time on the same session (and the same IPCP object)
+			if ev[1:] == "none" {
+				delete(s.Attributes, aaa.AttrIPv4Address)
+			} else {
+				s.Attributes[aaa.AttrIPv4Address] = net.IP(c06Bytes(ev[1:])).String()
+			}
+			s.extractIPFromAttributes()
+			s.startNCP()
 		case ev[0] == 'q':
 			i := strings.IndexByte(ev, '.')
 			id, _ := strconv.Atoi(ev[1:i])
@@ -204,7 +214,8 @@ func c06Sess(f []string) string {
 		if s.ipcpOpen {
 			up = 1
 		}
-		parts = append(parts, fmt.Sprintf("%s up=%d a=%s", drain(), up, c06ShowAddr(s.IPv4Address)))
+		parts = append(parts, fmt.Sprintf("%s up=%d a=%s pa=%s", drain(), up, c06ShowAddr(s.IPv4Address),
+			c06ShowAddr(s.ipcp.PeerConfig().PeerAddress)))
 	}
 	return strings.Join(parts, " | ")
 }
